@@ -36,6 +36,14 @@ func SyncWait() {
 	t := self()
 	s := S
 	if t == nil || s == nil {
+		// free-running mode (or a goroutine outside the scheduler): synctest.Wait must not be entered by two
+		// goroutines at once; waiting on a channel keeps the second caller durably blocked meanwhile
+		if sem := freeSem; sem != nil {
+			sem <- struct{}{}
+			synctest.Wait()
+			<-sem
+			return
+		}
 		synctest.Wait()
 		return
 	}
@@ -43,6 +51,8 @@ func SyncWait() {
 	t.selN = 0
 	s.park(t, stWaitQuiet)
 }
+
+var freeSem chan struct{}
 
 var stNames = map[int]string{stWaitQuiet: "wait-quiescence", stParked: "parked", stNative: "native-blocked", stLockWait: "lock-wait", stResumed: "resumed", stExited: "exited"}
 
@@ -168,8 +178,10 @@ func New(opt Options) *Sched {
 	s := &Sched{byG: map[int64]*Thread{}, opt: opt, Free: opt.Free}
 	if opt.Free {
 		S = nil
+		freeSem = make(chan struct{}, 1) // made inside the bubble of this run
 		return s
 	}
+	freeSem = nil
 	s.byG[goid()] = nil // the scheduler goroutine itself is never a thread
 	S = s
 	return s
